@@ -199,16 +199,9 @@ func (s *Stream) readBuf() []byte {
 		s.buf = make([]byte, s.bufSize)
 		copy(s.buf, remainBuf)
 	}
-	remainLen := s.length - s.cursor
-	remainNotNulCharNum := int64(0)
-	for i := int64(0); i < remainLen; i++ {
-		if s.buf[s.cursor+i] == nul {
-			break
-		}
-		remainNotNulCharNum++
-	}
-	s.length = s.cursor + remainNotNulCharNum
-	return s.buf[s.cursor+remainNotNulCharNum:]
+	// append after the filled part of the window; a NUL byte inside it is
+	// input data and must stay where it is
+	return s.buf[s.length:]
 }
 
 func (s *Stream) read() bool {
